@@ -127,6 +127,15 @@ PROPS = {
         "level_note": "the private calculate_t is reached through hook H2 (cfg ark_poly_commit_verif); codeword lengths up to 2^40 cannot be observed by producing proofs",
         "technique": "explicit-state exhaustive grid evaluation (E5) against an exact rational oracle",
     },
+    "C14": {
+        "rule": "E1+E5: every degree 0..40 (256 thorough) x key size {deg+1, deg+2, 2deg} x coefficient pattern {dense, low-zero, top}: time commit == space commit; single-point open at {r1,0,1} time == space for every msm buffer in {1,2,3,5,8,len-1,len,len+1,2^10,2^20}; verify accepts the truth and rejects value+delta; multi-point openings for point sets of size 1..4 (8 thorough): time proof == space proof, space remainder == p mod Z, verify_multi_points with eta in {0,1,r1} accepts the truth and rejects each evaluation+delta; batched time proof == proof of the explicit combination for 1..3 polynomials; folding: every length 1..130 x depth 0..7 x pattern {ones, rho, unit-first, unit-last}: FoldedPolynomialTree and FoldedPolynomialStream == naive fold level by level incl. lengths, commit_folding/open_folding == time prover on the explicit foldings; distinct = (family, size class, pattern, verdict)",
+        "assumptions": TRUSTED,
+        "require": {"classes": ["time==space", "false-rejected", "multi-true-accepted", "fold-ok", "commit_folding-ok", "open_folding-ok"], "dims": {"family": ["provers", "folding"]}},
+        "level_text": "exhaustive enumeration of degrees, key sizes, buffer sizes, point sets and of all (length, depth) pairs on the real time- and space-efficient provers, compared with each other and with naive reference computations (remainder by long division, fold by definition)",
+        "design_ref": "DESIGN.md section 4 C14",
+        "level_note": "the number of evaluation points is kept within the G2 powers the key actually holds (beyond that honest proofs are refused, which is acceptable)",
+        "technique": "explicit-state exhaustive enumeration (E1/E5) with differential and naive-reference oracles",
+    },
     "C15": {
         "rule": "E1: the full grid num_vars x max_degree in 1..6 x 1..6 (36 setups): key set == independent stars-and-bars enumeration (no missing, surplus or duplicate monomial), every identity e(G[m*x_i],H) == e(G[m], beta_i H) with deg(m*x_i) <= D, every gamma-power chain, prepared elements, every trim 1..D+1 keeps exactly the monomials of degree <= supported with the parameters' elements; then for (n,d) in 1..3^2 (1..4^2 thorough) every monomial support when there are <= 10 monomials (all 2^k - 1 subsets), supports of size <= 3 plus the full support beyond, x hiding {none,1} x {generic point, point with coordinates 0 and 1}: commit/open/check accepts the truth and rejects value+1; distinct = (grid cell, verdicts, mixed?, hiding?)",
         "assumptions": TRUSTED,
@@ -135,6 +144,15 @@ PROPS = {
         "design_ref": "DESIGN.md section 4 C15",
         "level_note": "coefficients are generic alphabet elements; supports beyond 10 monomials are covered up to size 3 plus the dense polynomial",
         "technique": "explicit-state exhaustive grid and support enumeration (E1) with pairing identities and end-to-end round trips",
+    },
+    "C16": {
+        "rule": "E2: the 32 operations {+=(c,lc), -=(c,lc), +=lc, -=lc, +=c, -=c, *=c : c in {0,1,-1,r1}, lc in two fixed combinations (one with a constant and a repeated label)}, ALL operation sequences to depth 4 (5 thorough) from two start combinations, invariant value(lc) == reference BTreeMap arithmetic at every node for three assignments; plus every <= 2-position deviation of a fixed length-12 sequence; evaluate_query_set on all 511 query sets over 3 polynomials x 3 point labels (two sharing a value), two listing orders; SuccinctCheckPolynomial for every challenge vector in {1,-1,r1}^k, k = 0..8 (10 thorough) at 7 points: evaluate == Horner(compute_coeffs) and compute_coeffs == naive product expansion, len == 2^k; distinct = (family, operation kinds / sizes, verdict)",
+        "assumptions": TRUSTED,
+        "require": {"classes": ["lc-node-ok", "eqs-ok", "scp-ok"], "dims": {"family": ["lc-ops", "evaluate_query_set", "succinct-check-polynomial"]}},
+        "level_text": "explicit-state exploration of all operator sequences up to a depth on the real LinearCombination type against a map-based reference, and exhaustive enumeration of query sets and challenge vectors for the two pure helpers",
+        "design_ref": "DESIGN.md section 4 C16",
+        "level_note": "operators act locally on the term list, so depth beyond the bound only lengthens lists; length 12 is reached with the deviation-bounded sweep",
+        "technique": "explicit-state DFS over operation sequences (E2) and exhaustive input enumeration (E5) against reference models",
     },
 }
 
